@@ -31,7 +31,7 @@ class C07(P.Property):
     real_stub = dict(deployment="as C09; additionally the scheme API is called directly (local branch) on the same inputs")
     assumptions = ["a setup or search that raises ends that branch without a verdict (after checking that the inputs are intact)"]
     probe_names = ["scheme_" + s for s in fe.SCHEMES] + ["local_branch", "server_branch", "multi_connection", "repeat_keyword", "absent_keyword",
-                                                          "server_index_compared", "nondefault_config", "decoy_service", "stored_key", "scheme_object_reused"]
+                                                          "server_index_compared", "nondefault_config", "decoy_service", "stored_key", "scheme_object_reused", "token_untouched", "token_reused", "stored_config"]
 
     def setup(self):
         world.setup_frontend()
@@ -39,6 +39,8 @@ class C07(P.Property):
         import json, os
         with open(os.path.join(os.path.dirname(__file__), "..", "..", "..", "fixtures", "keys.json")) as f:
             self.key_fixtures = json.load(f)["keys"]
+        with open(os.path.join(os.path.dirname(__file__), "..", "..", "..", "fixtures", "configs.json")) as f:
+            self.cfg_fixtures = json.load(f)["configs"]
 
     def gen(self, seed, tier):
         rng = P.stream(seed, "workload")
@@ -58,6 +60,13 @@ class C07(P.Property):
         knobs = dict(scheme=scheme, cfg_index=ci, db=db, cuts=cuts, gap=rng.choice([0, 0.5, 1.5]), sse2_spare=rng.choice([0, 3, 10]),
                      net=rng.choice([dict(lo=0.001, hi=0.05), dict(lo=0.001, hi=0.05, seg=3), dict(lo=0.0005, hi=0.004)]),
                      skew=rng.choice([1.0, 1.0, 2.0]), bufsize=8192, decoy=rng.random() < 0.3, stored_key=rng.choice([None, None, 0, 1, 2]), reuse_scheme=rng.choice([None, None, None, "same_key", "other_key", "other_key_big", "same_key_big"]))
+        knobs["stored_cfg"] = rng.random() < 0.35  # the configuration dictionary was written out earlier (a config.json), not derived from the running code's defaults
+        for st in steps:
+            u = rng.random()
+            if u < 0.3:
+                st["tok"] = "untouched"  # the token is not looked at before it is used (not serialised, not compared)
+            elif u < 0.5:
+                st["tok"] = "reused"  # ... and the same token object is used for a second search straight away
         return {"property": "C07", "seed": seed, "knobs": knobs, "steps": steps}
 
     def execute(self, plan):
@@ -106,6 +115,10 @@ class C07(P.Property):
         knobs = plan["knobs"]
         scheme = knobs["scheme"]
         L, cfg = fe.default_config(scheme)
+        if knobs.get("stored_cfg"):
+            stored = copy.deepcopy(self.cfg_fixtures[scheme])
+            stored.update({k: cfg[k] for k in ("param_n", "param_s", "param_dictionary_size") if k in cfg})
+            cfg = stored
         cfg.update(GRID[scheme][knobs["cfg_index"]])
         db = convert_database_keyword_to_bytes(knobs["db"])
         if scheme == "CGKO06.SSE2":
@@ -119,6 +132,8 @@ class C07(P.Property):
         probes["scheme_" + scheme] = 1
         if plan["knobs"]["cfg_index"]:
             probes["nondefault_config"] = 1
+        if plan["knobs"].get("stored_cfg"):
+            probes["stored_config"] = 1
         cfg_before, db_before = copy.deepcopy(cfg), copy.deepcopy(db)
         try:
             S = L.SSEScheme(cfg)
@@ -178,13 +193,33 @@ class C07(P.Property):
         answers = {}
         for i, st in enumerate(plan["steps"]):
             w = st["w"].encode("utf-8")
+            how = st.get("tok")
             try:
                 tk = S.TokenGen(K, w)
-                tser = tk.serialize()
+                if how:
+                    # token generation is deterministic in (key, keyword): a second token stands for "the token before the search"
+                    probes["token_" + how] = 1
+                    tser = S.TokenGen(K, w).serialize()
+                else:
+                    tser = tk.serialize()
                 got = S.Search(E, tk).get_result_list()
+                again = S.Search(E, tk).get_result_list() if how == "reused" else None
             except Exception as e:
+                if how:
+                    try:  # does the same search work with a token that was serialised first, on an untouched copy of the index?
+                        tk0 = S.TokenGen(K, w)
+                        tk0.serialize()
+                        S.Search(pristine(), tk0)
+                    except Exception:
+                        out["inconclusive"] = f"local search raised {type(e).__name__}"
+                        break
+                    viol.append(V("C07.token", "INPUT_MUTATED", f"search {i}: a search with a token object that was {how} raised {type(e).__name__}", site="token"))
+                    return
                 out["inconclusive"] = f"local search raised {type(e).__name__}"
                 break
+            if again is not None and not same_result(again, got):
+                viol.append(V("C07.token", "INPUT_MUTATED", f"search {i}: the same token object answered {len(got)} identifiers, then {len(again)}", site="token"))
+                return
             if tk.serialize() != tser:
                 viol.append(V("C07.token", "INPUT_MUTATED", f"search {i}: the token changed during Search", site="token"))
                 return
